@@ -8,9 +8,9 @@ from harness.drivers import c17 as K
 
 PROP = "C13"
 COQ_REQUIRES = ["Hio.Model.HttpLine", "Hio.Model.Chunk", "Hio.Model.HttpMsg"]
-COQ_CHECK = "HttpMsg.check_case"
-COQ_CASE_TYPE = "HttpMsg.case"
-COQ_BRANCHES = ("HttpMsg.case_branches", "HttpMsg.n_branches")
+COQ_CHECK = "HttpMsg.check_c13"
+COQ_CASE_TYPE = "HttpMsg.c13case"
+COQ_BRANCHES = ("HttpMsg.c13_branches", "HttpMsg.n_branches")
 SHARD = 120
 RULE = ("requests and responses, 1-3 pipelined: start line (9 methods, HTTP/1.0, 1.1, 1.x; status 200/204/304/404/1xx, "
         "reason phrases), 0-5 headers with random-case names (Connection close/keep-alive, Keep-Alive, "
@@ -19,7 +19,12 @@ RULE = ("requests and responses, 1-3 pipelined: start line (9 methods, HTTP/1.0,
         "or bare LF (per message); bodies contain CR/LF/CRLF; reads: random cuts, every byte, inside every CRLF "
         "and every size line, or whole.  Malformed stream: bad method/version/status, header without ': ', 101 "
         "headers, signed/underscored/negative/non-numeric lengths, bad chunk sizes, missing chunk end, short "
-        "bodies followed by close, requests without length on 1.0, 100 Continue.  Non-trivial: >= 3 reads with at "
+        "bodies followed by close, requests without length on 1.0, 100 Continue.  Server stream: 2-5 keep-alive "
+        "requests (GET / content-length / chunked bodies) fed to the REAL WSGI http.Server over a scripted socket, "
+        "one fragment per service() pass, the 2nd..kth request cut at arbitrary points (line boundaries, head "
+        "complete / body pending, inside chunks) with idle passes in between; what the application was handed "
+        "(method, target, body) and the response byte stream must equal those of request-by-request delivery.  "
+        "Non-trivial: >= 3 reads with at "
         "least one cut inside a line terminator, a chunk-size line or a body")
 MODELLED = ["Python generators of parseMessage/parseHead/parseBody (as one explicit stage machine)",
             "bytearray, str.split(), str.lower() on iso-8859-1 text, int(str) (as list functions; int() up to the 4300-digit limit)",
@@ -95,7 +100,95 @@ def run_reads(kind, reads, close):
     return {"msgs": msgs, "err": err, "errtext": errtext, "left": h(p.msg)}
 
 
+# ----------------------------------------------------------------------------- the real WSGI server
+
+def render_srv_request(i, r):
+    kind = r["body"][0]
+    lines = [f"{r['method']} /r{i}{r.get('query', '')} HTTP/1.1", "Host: verif"]
+    if r.get("conn"):
+        lines.append(f"Connection: {r['conn']}")
+    body = b""
+    if kind == "len":
+        body = unh(r["body"][1])
+        lines.append(f"Content-Length: {len(body)}")
+    elif kind == "chunked":
+        lines.append("Transfer-Encoding: chunked")
+        for c in r["body"][1]:
+            c = unh(c)
+            body += b"%x\r\n" % len(c) + c + b"\r\n"
+        body += b"0\r\n\r\n"
+    return ("\r\n".join(lines) + "\r\n\r\n").encode("latin-1") + body
+
+
+def srv_body(r):
+    if r["body"][0] == "len":
+        return unh(r["body"][1])
+    if r["body"][0] == "chunked":
+        return b"".join(unh(c) for c in r["body"][1])
+    return b""
+
+
+def run_server(frags):
+    """hio.core.http.Server over c18's scripted socket: one fragment (possibly empty) per service() pass"""
+    import io, sys
+    from hio.core import http
+    from hio.core.http import serving
+    from hio.base import tyming
+    from harness.drivers import c18
+    calls = []
+
+    def app(environ, start_response):
+        body = environ["wsgi.input"].read()
+        q = environ.get("QUERY_STRING", "")
+        calls.append([environ["REQUEST_METHOD"], environ["PATH_INFO"] + ("?" + q if q else ""), h(body)])
+        out = (environ["REQUEST_METHOD"] + " " + environ["PATH_INFO"] + " ").encode("latin-1") + body
+        start_response("200 OK", [("Content-Type", "text/plain"), ("Content-Length", str(len(out)))])
+        return [out]
+
+    sock = c18.FakeSock(list(frags), [])
+    saved, saved_err = serving.datetime, sys.stderr
+    serving.datetime = c18._FakeDatetimeModule
+    sys.stderr = io.StringIO()
+    try:
+        tymist = tyming.Tymist(tyme=0.0)
+        server = http.Server(app=app, ha=c18.HA)
+        server.wind(tymist.tymen())
+        server.servant.ss = c18.FakeListen(sock)
+        server.servant.opened = True
+        idle = passes = 0
+        while passes < 5000 and idle < 4:
+            before = (len(sock.out), len(sock.frags), len(sock.ready), len(calls))
+            sock.feed()
+            server.service()
+            passes += 1
+            ix = server.servant.ixes.get(c18.CA)
+            busy = bool(ix and ix.txbs) or any(not r.ended for r in server.reps.values())
+            after = (len(sock.out), len(sock.frags), len(sock.ready), len(calls))
+            idle = 0 if (before != after or busy) and not sock.closed else idle + 1
+        obs = {"out": h(sock.out), "closed": sock.closed, "calls": calls,
+               "unread": len(sock.ready) + sum(len(f) for f in sock.frags)}
+        server.servant.ss = None
+        server.close()
+        return obs
+    finally:
+        serving.datetime = saved
+        sys.stderr = saved_err
+
+
+def srv_frags(case):
+    return [unh(x) for x in case["frags"]]
+
+
+def srv_reference_frags(case):
+    out = []
+    for i, r in enumerate(case["reqs"]):
+        out += [render_srv_request(i, r), b"", b""]
+    return out
+
+
 def run_impl(case):
+    if case["kind"] == "server":
+        return run_server(srv_frags(case))
     return run_reads(case["kind"], [unh(x) for x in case["reads"]], case.get("close", False))
 
 
@@ -110,7 +203,24 @@ def _strip_left_on_error(o):
     return o
 
 
+def oracle_server(case, obs):
+    exp_calls = [[r["method"], f"/r{i}{r.get('query', '')}", h(srv_body(r))] for i, r in enumerate(case["reqs"])]
+    if obs["calls"] != exp_calls:
+        k = next((j for j, (a, b) in enumerate(zip(obs["calls"], exp_calls)) if a != b), min(len(obs["calls"]), len(exp_calls)))
+        return (f"the application was handed {len(obs['calls'])} request(s), {len(exp_calls)} were sent; first difference at "
+                f"request {k}: got {obs['calls'][k] if k < len(obs['calls']) else None}, sent {exp_calls[k] if k < len(exp_calls) else None}")
+    ref = run_server(srv_reference_frags(case))
+    if obs["out"] != ref["out"]:
+        return (f"responses depend on how the requests were fragmented: {len(obs['out']) // 2} response bytes, "
+                f"request-by-request delivery gives {len(ref['out']) // 2}")
+    if obs["closed"] != ref["closed"]:
+        return f"connection closed={obs['closed']}, request-by-request delivery gives closed={ref['closed']}"
+    return None
+
+
 def oracle(case, obs):
+    if case["kind"] == "server":
+        return oracle_server(case, obs)
     reads = [unh(x) for x in case["reads"]]
     whole = run_reads(case["kind"], [b"".join(reads)], case.get("close", False))
     a, b = _strip_left_on_error(obs), _strip_left_on_error(whole)
@@ -317,12 +427,69 @@ def directed():
         out.append({"kind": "req", "reads": [h(x) for x in K.cut(w, cuts)], "close": False})
     out.append({"kind": "req", "reads": [], "close": True})
     out.append({"kind": "resp", "reads": [h(b"")], "close": True})
+    # the real server: second request of a keep-alive connection spanning several service() passes (seeded C13-5)
+    two = [{"method": "GET", "body": ["none"]}, {"method": "POST", "body": ["len", h(b"hello")]},
+           {"method": "POST", "body": ["chunked", [h(b"ab"), h(b"cde")]]}]
+    s0 = len(render_srv_request(0, two[0]))
+    s1 = s0 + len(render_srv_request(1, two[1]))
+    out.append(_srv_case(two, [], ()))
+    out.append(_srv_case(two, [s0, s1], (0, 1)))
+    out.append(_srv_case(two, [s0, s0 + 18], (0,)))                 # request line | rest
+    out.append(_srv_case(two, [s0, s1 - 5], (0, 1)))                # head complete, body pending
+    out.append(_srv_case(two, [s0, s1, s1 + 60], (0, 1, 2)))        # cut inside the chunked request
+    out.append(_srv_case(two, list(range(1, s1 + 40)), ()))
     return out
 
 
+def _srv_case(reqs, cuts, idles=()):
+    """cuts: absolute offsets into the concatenated request stream; idles: indices of fragments followed by an idle pass"""
+    stream = b"".join(render_srv_request(i, r) for i, r in enumerate(reqs))
+    frags = []
+    for j, f in enumerate(K.cut(stream, cuts)):
+        frags.append(h(f))
+        if j in idles:
+            frags.append("")
+    return {"kind": "server", "reqs": reqs, "frags": frags}
+
+
+def _gen_server(rng):
+    reqs = []
+    n = rng.choice([2, 2, 3, 3, 4, 5])
+    for i in range(n):
+        bk = rng.choice(["none", "len", "len", "chunked", "chunked"])
+        if bk == "none":
+            r = {"method": rng.choice(["GET", "DELETE", "OPTIONS"]), "body": ["none"]}
+        elif bk == "len":
+            r = {"method": rng.choice(["POST", "PUT"]), "body": ["len", h(K._rand_data(rng))]}
+        else:
+            r = {"method": rng.choice(["POST", "PATCH"]), "body": ["chunked", [h(K._rand_data(rng)) for _ in range(rng.choice([1, 2, 3]))]]}
+        if rng.random() < 0.2:
+            r["query"] = "?x=%d" % i
+        if i == n - 1 and rng.random() < 0.3:
+            r["conn"] = "close"
+        reqs.append(r)
+    stream = b"".join(render_srv_request(i, r) for i, r in enumerate(reqs))
+    first = len(render_srv_request(0, reqs[0]))
+    lines = [i + 2 for i in range(first, len(stream) - 2) if stream[i:i + 2] == b"\r\n"]
+    style = rng.random()
+    if style < 0.35:       # the later requests cut at line boundaries (head complete / body pending, between headers)
+        cuts = [first] + rng.sample(lines, k=min(len(lines), rng.choice([1, 2, 3, 5])))
+    elif style < 0.7:      # arbitrary points
+        cuts = [first] + [rng.randrange(first + 1, len(stream)) for _ in range(rng.choice([1, 2, 4, 8]))]
+    elif style < 0.8:      # every byte of the later requests
+        cuts = [first] + list(range(first + 1, min(len(stream), first + 200)))
+    else:                  # also the first request fragmented
+        cuts = [rng.randrange(1, len(stream)) for _ in range(rng.choice([2, 4, 6]))]
+    ncut = len(set(c for c in cuts if 0 < c < len(stream))) + 1
+    idles = set(j for j in range(ncut) if rng.random() < 0.5)
+    if rng.random() < 0.5:
+        idles.add(0)         # let the first request be answered before the next one starts to arrive
+    return _srv_case(reqs, cuts, idles)
+
+
 def generate(rng, tier):
-    n_wf, n_mal = (450, 250) if tier == "quick" else (4500, 2500)
-    return [_gen_wf(rng) for _ in range(n_wf)] + [_gen_mal(rng) for _ in range(n_mal)]
+    n_wf, n_mal, n_srv = (450, 250, 200) if tier == "quick" else (4500, 2500, 2000)
+    return [_gen_wf(rng) for _ in range(n_wf)] + [_gen_mal(rng) for _ in range(n_mal)] + [_gen_server(rng) for _ in range(n_srv)]
 
 
 # ----------------------------------------------------------------------------- Gallina
@@ -343,6 +510,16 @@ def coq_omsg(m):
 
 
 def to_coq(case, obs):
+    if case["kind"] == "server":
+        hb = K.coq_hexbytes
+        seen = coq_list([f"({coq_bytes(c[0].encode('latin-1'))}, {coq_bytes(c[1].encode('latin-1'))}, {hb(c[2])})" for c in obs["calls"]],
+                        "bytes * bytes * bytes")
+        return "(HttpMsg.KServer {| HttpMsg.s_reads := %s; HttpMsg.s_seen := %s |})" % (
+            coq_list([hb(x) for x in case["frags"] if x], "bytes"), seen)
+    return "(HttpMsg.KMsg %s)" % _to_coq_msg(case, obs)
+
+
+def _to_coq_msg(case, obs):
     return ("{| HttpMsg.c_kind := %s; HttpMsg.c_reads := %s; HttpMsg.c_close := %s; HttpMsg.c_msgs := %s; "
             "HttpMsg.c_err := %s; HttpMsg.c_left := %s |}" % (
                 _kind(case["kind"]), coq_list([K.coq_hexbytes(x) for x in case["reads"]], "bytes"),
@@ -351,6 +528,8 @@ def to_coq(case, obs):
 
 
 def nontrivial(case, obs):
+    if case["kind"] == "server":
+        return len([f for f in case["frags"] if f]) >= 3 and len(obs.get("calls", [])) >= 2
     reads = [unh(x) for x in case["reads"]]
     if len(reads) < 3:
         return False
@@ -368,6 +547,11 @@ def classify(case, obs, why):
 
 
 def shrink(case):
+    if case["kind"] == "server":
+        fr = case["frags"]
+        for i in range(len(fr) - 1):
+            yield dict(case, frags=fr[:i] + [fr[i] + fr[i + 1]] + fr[i + 2:])
+        return
     reads = case["reads"]
     if len(reads) > 1:
         for i in range(len(reads) - 1):
@@ -380,8 +564,10 @@ def distribution(cases, obs):
         kinds[c["kind"]] = kinds.get(c["kind"], 0) + 1
         if isinstance(o, dict) and "msgs" in o:
             msgs += len(o["msgs"]); errs += 1 if o["err"] else 0
+        if isinstance(o, dict) and "calls" in o:
+            msgs += len(o["calls"])
         closes += 1 if c.get("close") else 0
-    nreads = sorted(len(c["reads"]) for c in cases)
+    nreads = sorted(len(c["reads"]) if "reads" in c else len(c["frags"]) for c in cases)
     return {"kinds": kinds, "messages_parsed": msgs, "errored": errs, "closed": closes,
             "reads_median": nreads[len(nreads) // 2], "reads_max": nreads[-1]}
 
